@@ -101,3 +101,28 @@ Print Assumptions C09_item_rescan.
 
 Example C09_example : map tkind (scan (L "a<=0x1f // c")) = [KIdentifier; KLE; KNumber].
 Proof. vm_compute. reflexivity. Qed.
+
+(** ** layout between tokens *)
+From PQL Require Import Proofs.LexCut Proofs.Layout.
+
+(** look-ahead stops at white space: a token read from a text is read unchanged when an ASCII
+    white-space byte (newline, space, tab, carriage return) or a semicolon, and then anything,
+    follows the text *)
+Theorem C09_lookahead_stops_at_white_space : forall x a b k v n, neutral x -> lex1 a = Tok k v n -> k <> KError ->
+  lex1 (a ++ x :: b) = Tok k v n.
+Proof. exact lex1_fwd. Qed.
+Print Assumptions C09_lookahead_stops_at_white_space.
+
+(** token texts laid out with gaps (in front: any white space and complete // comments; between
+    tokens and optionally at the end: the same, beginning with a white-space byte) scan to exactly
+    those tokens - kind, value, length - and nothing else *)
+Theorem C09_spaced_layout_scans_to_its_tokens : forall g0 items s, gap g0 -> spaced items s ->
+  map tok_kvl (scan (g0 ++ s)) = map item_kvl items.
+Proof. exact scan_spaced. Qed.
+Print Assumptions C09_spaced_layout_scans_to_its_tokens.
+
+(** kind and value of a token are functions of its text *)
+Theorem C09_kind_value_from_text : forall s1 s2, map (tok_text s1) (scan s1) = map (tok_text s2) (scan s2) ->
+  Forall2 (fun t t' => tkind t = tkind t' /\ tvalue t = tvalue t') (scan s1) (scan s2).
+Proof. exact same_texts_same_kv. Qed.
+Print Assumptions C09_kind_value_from_text.
